@@ -143,6 +143,9 @@ Section Weather.
         let Tv := Tv + 1 in                                        (* T++ *)
         if y <? startyear then rm_loop startyear rest Tv yrz first st   (* continue *)
         else
+          (* a 1 January closes the year before it, which has to be complete: its last record is
+             the 31st of December (MaxYearDays = YearDay(31 Dec of year-1)), else "missing days" (F32) *)
+          if negb first && (yd =? 1) && negb (maxd_at st (Z.to_nat (yrz - 1)) =? ylen (y - 1)) then None else
           let '(Tv, yrz) := if first then (yd, 1)
                             else if yd =? 1 then (1, yrz + 1) else (Tv, yrz) in
           if negb (yd =? Tv) then None                             (* "missing days" *)
